@@ -558,12 +558,105 @@ def extract_codec_b():
     write_if_changed("CodecB.lean", "\n".join(lines))
 
 
+def norm(s):
+    return re.sub(r"\s+", " ", s).strip()
+
+
+def const_of(src, pat, what):
+    m = re.search(pat, src)
+    if not m:
+        raise ExtractError(f"{what}: pattern `{pat}` not found")
+    return int(m.group(1).replace("_", ""), 0)
+
+
+def gen_arp():
+    """C06: retry budget, packet constants, the mask / network-id kernels the gateway decision
+    of `Arp::resolve` uses (exact text match, fail closed) -> Generated/Arp.lean."""
+    arp = strip_comments(read(os.path.join(CORE, "protocols", "arp.rs")))
+    par_full = strip_comments(read(os.path.join(CORE, "protocols", "arp", "arp_parsing.rs")))
+    par = par_full.split("#[cfg(test)]")[0]
+    sub = strip_comments(read(os.path.join(CORE, "protocols", "arp", "subnetting.rs"))).split("#[cfg(test)]")[0]
+    net = strip_comments(read(os.path.join(CORE, "network.rs")))
+    tries = const_of(arp, r"pub const RESEND_TRIES: u32 = (\d[\d_]*);", "arp.rs RESEND_TRIES")
+    delay_ms = const_of(arp, r"pub const RESEND_DELAY: Duration = Duration::from_millis\((\d[\d_]*)\);", "arp.rs RESEND_DELAY")
+    size = const_of(par, r"pub const SIZE: usize = (\d+);", "ArpPacket::SIZE")
+    htype = const_of(par, r"const HTYPE: u16 = (0x[0-9a-fA-F_]+|\d+);", "HTYPE")
+    ptype = const_of(par, r"const PTYPE: u16 = (0x[0-9a-fA-F_]+|\d+);", "PTYPE")
+    hlen = const_of(par, r"const HLEN: u8 = (\d+);", "HLEN")
+    plen = const_of(par, r"const PLEN: u8 = (\d+);", "PLEN")
+    req = const_of(par_full, r"pub enum Operation \{\s*Request = (\d+),", "Operation::Request")
+    rep = const_of(par_full, r"pub enum Operation \{\s*Request = \d+,\s*Reply = (\d+),", "Operation::Reply")
+    m = re.search(r"pub fn new_request\(.*?\) -> ArpPacket \{(.*?)\n    \}", par, flags=re.S)
+    if not m:
+        raise ExtractError("arp_parsing.rs: new_request not found")
+    tmac = const_of(m.group(1), r"target_mac: (\d+),", "new_request target_mac placeholder")
+    bmac = const_of(net, r"pub const BROADCAST_MAC: Mac = (0x[0-9a-fA-F_]+);", "Network::BROADCAST_MAC")
+    # kernels: exact (whitespace-normalised) text, translated by hand once; any edit fails closed
+    nsub = norm(sub)
+    clamp_txt = "const fn clamp(num: u32, min: u32, max: u32) -> u32 { assert!(min <= max); if num < min { min } else if num > max { max } else { num } }"
+    fb_txt = ("pub const fn from_bitcount(size: u32) -> Ipv4Mask { let size = clamp(size, 0, 32); if size == 0 { Ipv4Mask(0) } "
+              "else if size == 32 { Ipv4Mask(0xFF_FF_FF_FF) } else { Ipv4Mask(((1 << size) - 1) << (32 - size)) } }")
+    new_txt = "pub fn new(ip: Ipv4Address, mask: Ipv4Mask) -> Self { Self { network_id: Ipv4Address::from(ip.to_u32() & mask.to_u32()), mask, } }"
+    id_txt = "pub fn id(&self) -> Ipv4Address { self.network_id }"
+    for t, w in ((clamp_txt, "clamp"), (fb_txt, "Ipv4Mask::from_bitcount"), (new_txt, "Ipv4Net::new"), (id_txt, "Ipv4Net::id")):
+        if t not in nsub:
+            raise ExtractError(f"subnetting.rs: `{w}` no longer has the text the Lean kernel was translated from")
+    narp = norm(arp)
+    gw_txt = ("if let Some(subnet) = subnet { let mask = subnet.mask; if Ipv4Net::new(endpoints.local, mask).id() != "
+              "Ipv4Net::new(endpoints.remote, mask).id() { endpoints.remote = subnet.default_gateway; } };")
+    if gw_txt not in narp:
+        raise ExtractError("arp.rs: the gateway decision of Arp::resolve no longer has the text the model was written from")
+    # does a cached failure answer `resolve` / wake a waiter in `get_mac`?  (F-C06-1)
+    old_r = "if let Some(status) = self.arp_table.get_clone(dest_ip) { return status; }" in narp
+    old_g = "if let Some(value) = self.get_clone(ip) { return value; }" in narp
+    new_r = "if let Some(Ok(mac)) = self.arp_table.get_clone(dest_ip) { return Ok(mac); }" in narp
+    new_g = "if let Some(Ok(mac)) = self.get_clone(ip) { return Ok(mac); }" in narp
+    if old_r and old_g and not (new_r or new_g):
+        neg_cache = True
+    elif new_r and new_g and not (old_r or old_g):
+        neg_cache = False
+    else:
+        raise ExtractError("arp.rs: table lookups of Arp::resolve / ArpTable::get_mac have neither of the two known forms")
+    # the wire layout of a MAC: the low six bytes of the u64
+    if par.count(".to_be_bytes()[2..8]") != 2 or "next_u48_be()" not in par:
+        raise ExtractError("arp_parsing.rs: MAC wire layout (to_be_bytes()[2..8] / next_u48_be) changed")
+    lines = ["-- GENERATED from /repo sources by tools/extract.py on every check; do not edit",
+             "namespace Elvis.Gen.Arp",
+             "/-- `Arp::RESEND_TRIES` -/",
+             f"def resendTries : Nat := {tries}",
+             "/-- `Arp::RESEND_DELAY` in microseconds -/",
+             f"def resendDelayUs : Nat := {delay_ms * 1000}",
+             f"def packetSize : Nat := {size}",
+             f"def htype : Nat := {htype}",
+             f"def ptype : Nat := {ptype}",
+             f"def hlen : Nat := {hlen}",
+             f"def plen : Nat := {plen}",
+             f"def operRequest : Nat := {req}",
+             f"def operReply : Nat := {rep}",
+             "/-- `target_mac` placeholder of `ArpPacket::new_request` -/",
+             f"def requestTargetMac : Nat := {tmac}",
+             f"def broadcastMac : Nat := {bmac}",
+             "/-- does an `Err` entry of the ARP table answer `resolve` and wake waiters of `get_mac`? -/",
+             f"def cachedFailureIsAnswer : Bool := {'true' if neg_cache else 'false'}",
+             "/-- `clamp` of subnetting.rs (u32 arguments) -/",
+             "def clamp (num min max : Nat) : Nat := if num < min then min else if num > max then max else num",
+             "/-- `Ipv4Mask::from_bitcount` (no u32 overflow possible: `size < 32` in the last branch) -/",
+             "def maskFromBitcount (size : Nat) : Nat :=",
+             "  let size := clamp size 0 32",
+             "  if size == 0 then 0 else if size == 32 then 0xFFFFFFFF else ((1 <<< size) - 1) <<< (32 - size)",
+             "/-- `Ipv4Net::new(ip, mask).id()` -/",
+             "def netId (ip mask : Nat) : Nat := ip &&& mask",
+             "end Elvis.Gen.Arp", ""]
+    write_if_changed("Arp.lean", "\n".join(lines))
+
+
 def main():
     check_message_immutability()
     gen_sim_cert()
     subnet_kernels()
     codec_extract()
     extract_codec_b()
+    gen_arp()
     consts = ["-- GENERATED from /repo sources by tools/extract.py on every check; do not edit", "namespace Elvis.Gen", "end Elvis.Gen", ""]
     consts = ["-- GENERATED from /repo sources by tools/extract.py on every check; do not edit", "namespace Elvis.Gen"]
     # C11: reassembly timer lower bound (segment.rs `const TLB: u8 = 15;`)
